@@ -23,7 +23,9 @@ def run(ctx: Ctx, chk) -> None:
     # six fields, payload after the 5th delimiter: same rule as C01
     rule = "DELIM-1"
     chk.rule(rule, "the decoder isolates the payload as everything after the 5th ';' (a line with more than six ';'-separated parts is accepted with the rest as payload)")
-    n = codec.check_delim1(ctx, chk, rule, only_funcs={f"{codec.SCHEMA}.to_dict"})
+    _sch, _hooks = c01.schema_hooks(ctx)
+    _pre = _hooks["pre_load"][0] if _hooks["pre_load"] else None
+    n = codec.check_delim1(ctx, chk, rule, only_funcs={f"{codec.SCHEMA}.to_dict"} | ({h.fq for h in codec.decode_helpers(ctx, _pre)} if _pre is not None else set()))
     chk.floor(rule, "split sites in MessageSchema.to_dict", n, 1)
     chk.run_rule(fresh_decode, ctx)
     from .mmtemplates import template1
